@@ -539,7 +539,9 @@ def fresh_process_replay(ctx, all_logs):
     os.close(fd)
     try:
         with open(path, "w") as f:
-            json.dump(all_logs, f)
+            from ..ctx import pack
+
+            json.dump(pack(all_logs), f)  # surrogate-exact transport (see ctx.pack)
         r = subprocess.run([sys.executable, "-m", "yv.props.c08", path], capture_output=True, text=True, timeout=1800, env=dict(os.environ))
         try:
             res = json.loads(r.stdout.strip().splitlines()[-1])
@@ -547,7 +549,11 @@ def fresh_process_replay(ctx, all_logs):
             ctx.crash = "fresh-process replay produced no result: " + (r.stdout[-300:] + r.stderr[-600:])
             return
         ctx.count("fresh_process_replayed", res["replayed"])
+        from ..ctx import unpack
+
         for m in res["mismatches"][:20]:
+            m = dict(m, record=unpack(m["record"]), births=unpack(m["births"]), origins=unpack(m.get("origins")), warm=unpack(m["warm"]), cold=unpack(m["cold"]),
+                     diff=unpack(m.get("diff", [])))
             ctx.fail("history_dependent_outcome", {"program": m["pid"], "step": m["step"], "record": m["record"], "operands": m["births"], "order": "reversed, fresh process", "op": _as_op(m.get("origins") or {})},
                      f"step {m['step']} {m['record']['op']}: warm {str(m['warm'])[:200]} != fresh-process reversed replay {str(m['cold'])[:200]}", fields=m.get("fields", []),
                      _diff=[tuple(x) for x in m.get("diff", [])], warm=m["warm"], cold=m["cold"])
@@ -558,15 +564,18 @@ def fresh_process_replay(ctx, all_logs):
 def _fresh_main(path):
     import json
 
+    from yv.ctx import pack, unpack
+
     all_logs = json.load(open(path))
     mismatches, n = [], 0
     for pid, log in reversed(all_logs):
         for si in range(len(log) - 1, -1, -1):
             step, births, warm, origins = log[si]
+            step, births = unpack(step), unpack(births)  # inputs exactly as the warm run had them; outcomes are compared in packed form
             if step["op"] in ("cache_info", "cache_clear", "cache_configure"):
                 continue
             operands = {k: twin_from_slots(tuple(b)) for k, b in births.items()}
-            cold = json.loads(json.dumps(outcome_of(execute(step, operands))))
+            cold = json.loads(json.dumps(pack(outcome_of(execute(step, operands)))))
             n += 1
             if cold != warm:
                 d = []
